@@ -151,6 +151,14 @@ def openInst (c : Cfg) (p : Proc) (dir : Nat) (mode : Mode) : Proc :=
   let inst := { inst with allocId := max inst.allocId s.nextId }
   { p with trk := trk, inst := some inst }
 
+/-- write the current state of each listed topic into the marker map -/
+def mergeMarkers (states : AMap Topic (Nat × Bool)) : List Topic → AMap Topic (Nat × Bool) → AMap Topic (Nat × Bool)
+  | [], m => m
+  | t :: r, m =>
+    match states.get? t with
+    | some st => mergeMarkers states r (m.insert t st)
+    | none => mergeMarkers states r m
+
 /-- the marker persister thread's pass: write pending topics' states -/
 def persistMarkers (p : Proc) : Proc :=
   match p.inst with
@@ -159,25 +167,36 @@ def persistMarkers (p : Proc) : Proc :=
     if i.cleanPending.isEmpty then p
     else
       let d := (p.dirs.get? i.dir).getD {}
-      let markers := i.cleanPending.foldl (fun m t =>
-        match i.cleanStates.get? t with
-        | some st => m.insert t st
-        | none => m) d.markers
+      let markers := mergeMarkers i.cleanStates i.cleanPending d.markers
       { p with dirs := p.dirs.insert i.dir { d with markers := markers },
                inst := some { i with cleanPending := [] } }
 
-/-- drop of the instance: the index is already on disk; pending marker updates are lost unless
-the persister ran -/
-def closeInst (p : Proc) : Proc :=
+/-- the process dies without dropping the instance: the index is already on disk (every `set`
+persists); marker updates the persister has not written are lost -/
+def abandonInst (p : Proc) : Proc :=
   match p.inst with
   | none => p
   | some i =>
     let d := (p.dirs.get? i.dir).getD {}
     { p with dirs := p.dirs.insert i.dir { d with index := i.index }, inst := none }
 
-/-- process exit + new process: global trackers, `LAST_MILLIS` and the instance vanish -/
+/-- drop of the instance (clean shutdown): `TopicCleanTracker::drop` writes every topic's marker -/
+def closeInst (p : Proc) : Proc :=
+  match p.inst with
+  | none => p
+  | some i =>
+    let d := (p.dirs.get? i.dir).getD {}
+    let markers := mergeMarkers i.cleanStates i.cleanStates.keys d.markers
+    { p with dirs := p.dirs.insert i.dir { d with index := i.index, markers := markers }, inst := none }
+
+/-- clean shutdown + new process: global trackers, `LAST_MILLIS` and the instance vanish -/
 def restartProc (p : Proc) : Proc :=
   let p := closeInst p
+  { p with trk := {}, lastMillis := 0 }
+
+/-- process kill + new process -/
+def killProc (p : Proc) : Proc :=
+  let p := abandonInst p
   { p with trk := {}, lastMillis := 0 }
 
 /-- the reclaimer's deletion pass -/
